@@ -200,6 +200,7 @@ def orcfg(cfg, flags=("--persist", "--laws"), inv=None, **kw):
 
 ENGINES["orswot"]["configs"]["quick"] += [
     orcfg("orswot_q3all.cfg"),                       # add_all + rm: several pending removes with the SAME context
+    orcfg("orswot_s_samectx4.cfg"),                  # the same with 4 replicas, no merge transitions (merge-law triples of replicas each holding one pending remove)
     orcfg("orswot_s_samectx.cfg"),                   # scenario: rm_all-context removes of different members overtake the adds
     orcfg("orswot_s_collapse.cfg", flags=("--persist",), inv=["TypeOK", "RefinesA", "Converge", "DupNoop", "ValidateOpOK", "CtxOK", "FreshDot"]),  # regression of fix 4c1b5ee
 ]
